@@ -13,7 +13,7 @@ PROPERTY_ID = 'C17'
 RULE = ('Hypothesis draws spatial mode sizes (1..3 modes of size 2..4, a size-1 mode now and then), the snapshot count m (2..8), '
         'the rank r <= min(N, m) of the snapshot matrix X = F G (exact low-rank factors), a random linear map A with Y = A X, '
         'the TT representation of X and Y (harness TT-SVD, optionally followed by a random gauge, or pre-orthonormalised so that '
-        'ortho_l / ortho_r = False is admissible), threshold in {0, 1e-9} and the variant (exact / standard). Oracle: matrix DMD '
+        'ortho_l / ortho_r = False is admissible), threshold in {0, 1e-9}, a common scale factor 10^k of the snapshots (k in {-12,-3,0,6}; relative cuts are scale-invariant) and the variant (exact / standard). Oracle: matrix DMD '
         'with the same rank: eigenvalue multisets equal; exact modes satisfy (Y X^+) phi = lambda phi, standard modes satisfy '
         'U U^H (Y X^+) phi = lambda phi with phi in range(U) (scale-free eigen-equations); inputs bit-identical; returned modes '
         'consistent. Non-trivial: rank-deficient X (r < min(N, m)), gauge, pre-orthonormalised input with flags off, >= 2 spatial '
@@ -39,7 +39,8 @@ def dmd_case(draw):
     rep = draw(st.sampled_from(['ttsvd', 'gauge', 'preorth']))
     flags = [draw(st.booleans()), draw(st.booleans())] if rep == 'preorth' else [True, True]
     return {'dims': dims, 'm': m, 'r': r, 'rep': rep, 'flags': flags, 'threshold': draw(st.sampled_from([0, 0, 1e-9])),
-            'variant': draw(st.sampled_from(['exact', 'standard'])), 'seed': draw(gen.SEED)}
+            'variant': draw(st.sampled_from(['exact', 'standard'])), 'seed': draw(gen.SEED),
+            'scale_exp': draw(st.sampled_from([0, 0, -3, -12, 6]))}
 
 
 def to_tt(rng, mat, dims, m, rep):
@@ -78,7 +79,8 @@ def body(c):
     rng = np.random.default_rng(c['seed'])
     dims, m, r = c['dims'], c['m'], c['r']
     N = int(np.prod(dims))
-    X = rng.standard_normal((N, r)) @ rng.standard_normal((r, m))
+    scale = 10.0 ** c.get('scale_exp', 0)       # DMD is invariant under a common rescaling of the snapshots
+    X = scale * (rng.standard_normal((N, r)) @ rng.standard_normal((r, m)))
     A = rng.standard_normal((N, N))
     Y = A @ X
     # matrix DMD
@@ -131,17 +133,19 @@ def body(c):
         lab.add('flags_off')
     if 1 in dims:
         lab.add('size1mode')
+    if c.get('scale_exp', 0) != 0:
+        lab.add('rescaled_data')
     if np.any(np.abs(np.imag(lam)) > 1e-9):
         lab.add('complex_eigenvalues')
     return lab
 
 
 def nt(labels):
-    return bool({'rank_deficient', 'rep_gauge', 'flags_off', 'multi_mode', 'threshold>0'} & set(labels))
+    return bool({'rank_deficient', 'rep_gauge', 'flags_off', 'multi_mode', 'threshold>0', 'rescaled_data'} & set(labels))
 
 
 SUBCHECKS = [
     Sub('tdmd', dmd_case(), body, nt, quick=300, thorough=3000, shards_quick=8,
         classes=['exact', 'standard', 'rank_deficient', 'rep_gauge', 'rep_preorth', 'flags_off', 'multi_mode', 'threshold>0', 'complex_eigenvalues',
-                 'size1mode']),
+                 'size1mode', 'rescaled_data']),
 ]
